@@ -742,7 +742,7 @@ SIZES = {
     'quick':    {'containers': ['list'], 'rnd_cells': 16, 'rnd_count': 125,
                  'pipe_cells': 8, 'pipe_programs': 5, 'exh_cells': 32},
     'thorough': {'containers': ['list', 'set'], 'rnd_cells': 100, 'rnd_count': 1000,
-                 'pipe_cells': 16, 'pipe_programs': 20, 'exh_cells': 32},
+                 'pipe_cells': 32, 'pipe_programs': 10, 'exh_cells': 32},
 }
 
 
@@ -779,7 +779,7 @@ def main(prop, tier):
     if fixtures:
         agg.inconclusive.append('reference self-test failed: ' + '; '.join(fixtures)[:400])
     results = common.run_cells('vf.labs.graphlab:cell', cells, tag,
-                               timeout=600 if tier == 'quick' else 1500)
+                               timeout=1800 if tier == 'quick' else 3600)   # watchdog only
     agg.max_samples = 8
     # interleave sample origins: pipeline / exhaustive / random
     by_kind = {}
